@@ -3,18 +3,18 @@ CONSTANTS
     BufCap = 3
     Ls = {3}
     Ns = {2}
-    Opts = {6}
-    Sizes = {2, 4}
+    Opts = {2}
+    Sizes = {2}
     MaxSends = 4
     MaxDay = 1
     MaxRestarts = 1
-    MaxCrash = 1
-    MaxFault = 1
-    MaxGzWrites = 2
+    MaxCrash = 0
+    MaxFault = 0
+    MaxGzWrites = 1
     Ticks = FALSE
     Fatal = FALSE
     FlushOnFatal = TRUE
-    ZoneBack = FALSE
+    ZoneBack = TRUE
     ZoneTies = FALSE
-INVARIANT W_NeverTwoDays
+INVARIANT W_NeverZonedRotation
 CHECK_DEADLOCK FALSE
